@@ -135,7 +135,8 @@ func BuildClassList(classes ...any) (string, error) {
 			return "", fmt.Errorf("goht: invalid class type: %T", class)
 		}
 	}
-	return strings.Join(classList, ` `), nil
+	// the class list is written into a double-quoted attribute value
+	return html.EscapeString(strings.Join(classList, ` `)), nil
 }
 
 func BuildAttributeList(attributes ...any) (string, error) {
@@ -191,7 +192,8 @@ func ObjectID(obj any, prefix ...string) string {
 		s = append(s, v.ObjectClass())
 	}
 	s = append(s, ref.ObjectID())
-	return strings.Join(s, "_")
+	// the id is written into a double-quoted attribute value
+	return html.EscapeString(strings.Join(s, "_"))
 }
 
 func ObjectClass(obj any, prefix ...string) string {
